@@ -165,11 +165,11 @@ package updog
 
 //@ pred SchemaOK(s *schema) := s != nil && (forall k string :: (k in s.Columns) ==> s.Columns[k] != nil)
 //@ pred IdxInv(idx *Index) := idx != nil && SchemaOK(idx.schema) && idx.metrics != nil && GetterValid(idx.values) && CacheValid(idx.cache)
-//@   && (forall c string, v string :: (c in idx.schema.Columns) && (v in idx.schema.Columns[c].Values) ==> hasCol(idx.values, idx.schema.Columns[c].Values[v]))
 //@   && (forall k uint64 :: subset(gcol(idx.values, k), univ(idx.nextRowID)))
 //@   && CacheSem(idx)
 
 // hasCol: a bitmap for value index k is available from the getter. For the preloaded getter: it is in the map.
+// (No invariant promises it: a file may list a value in its schema and hold no bitmap for it; callers handle nil.)
 // For the on-demand getter every lookup yields a bitmap or an error, so availability is not needed for safety.
 //@ pure hasCol(g colGetter, k uint64) bool := typeof(g) == ptrtag(preloadedColGetter) ==> (k in g.(*preloadedColGetter).values)
 //@ pred GetterValid(g colGetter) := g != nil && (typeof(g) == ptrtag(onDemandColGetter) || typeof(g) == ptrtag(preloadedColGetter))
@@ -180,13 +180,19 @@ package updog
 //@ pure validBM(b bytes) bool
 //@ pure kV(k uint64) key
 //@ pure be64byte(v uint64, i int) int
-//@ axiom kV_def: forall k uint64 :: { kV(k) } klen(kV(k)) == 9 && kat(kV(k), 0) == 86 && (forall i int :: 0 <= i && i < 8 ==> kat(kV(k), 1 + i) == be64byte(k, i))
+//@ axiom kV_def: forall k uint64 :: { kV(k) } klen(kV(k)) == 9 && kat(kV(k), 0) == 86 && (forall p int :: { kat(kV(k), p) } 1 <= p && p < 9 ==> kat(kV(k), p) == be64byte(k, p - 1))
 //@ pure gcol(g colGetter, k uint64) iset reads preloadedColGetter.values, map[uint64]*roaring.Bitmap, dom[uint64]*roaring.Bitmap, roaring.Bitmap.view, onDemandColGetter.db, bbolt.DB.committed
 //@ axiom gcol_preloaded: forall g colGetter, k uint64 :: { gcol(g, k) } typeof(g) == ptrtag(preloadedColGetter) ==>
 //@    gcol(g, k) == ((k in g.(*preloadedColGetter).values) ? g.(*preloadedColGetter).values[k].view : iempty())
 //@ axiom gcol_ondemand: forall g colGetter, k uint64 :: { gcol(g, k) } typeof(g) == ptrtag(onDemandColGetter) ==>
 //@    gcol(g, k) == ((sin(g.(*onDemandColGetter).db.committed, kV(k)) && validBM(sval(g.(*onDemandColGetter).db.committed, kV(k))))
 //@                    ? decodeBM(sval(g.(*onDemandColGetter).db.committed, kV(k))) : iempty())
+// what an index file holds for value index k, and when a file is consistent (true for every file the verified writers
+// produce: WriterSem; an assumption about files from elsewhere): no bitmap mentions a row beyond the row counter
+//@ pure stored(s store, k uint64) iset := (sin(s, kV(k)) && validBM(sval(s, kV(k)))) ? decodeBM(sval(s, kV(k))) : iempty()
+//@ pred FileConsistent(s store) := forall k uint64 :: subset(stored(s, k), univ(be32dec(sval(s, kI()))))
+// a getter built from a database holds, for every value index, what the file holds or nothing
+//@ pred GetterFrom(g colGetter, db *bbolt.DB) := forall k uint64 :: gcol(g, k) == stored(db.committed, k) || gcol(g, k) == iempty()
 //@ interface colGetter.GetCol(g, key) (bm, err)
 //@   requires GetterValid(g)
 //@   ensures err == nil && hasCol(g, key) ==> bm != nil
@@ -308,7 +314,6 @@ package updog
 
 //@ func [C02,C08,C14,C04,C03] (*Query).groupBy(q, groupByFields, result, idx) (finalResult)
 //@   requires IdxInv(idx) && result != nil
-//@   requires forall j idx(groupByFields) :: forall a idx(groupByFields[j].Values) :: hasCol(idx.values, groupByFields[j].Values[a].Idx)
 //@   ensures [C02] empty_list_no_groups: len(groupByFields) == 0 ==> len(finalResult) == 0
 //@   ensures [C02] shape: forall g idx(finalResult) :: len(finalResult[g].Fields) == len(groupByFields)
 //@   loop 1
@@ -316,11 +321,9 @@ package updog
 //@   loop 2
 //@     invariant 0 <= $i && RGsOK(resultGroups, $i1) && RGsOK(newResultGroups, $i1 + 1)
 //@     invariant arr(newResultGroups) == nil || arr(newResultGroups) != arr(resultGroups)
-//@     invariant forall a idx(gbf.Values) :: hasCol(idx.values, gbf.Values[a].Idx)
 //@   loop 3
 //@     invariant 0 <= $i && RGsOK(resultGroups, $i1) && RGsOK(newResultGroups, $i1 + 1)
 //@     invariant arr(newResultGroups) == nil || arr(newResultGroups) != arr(resultGroups)
-//@     invariant forall a idx(gbf.Values) :: hasCol(idx.values, gbf.Values[a].Idx)
 //@     invariant rg.result != nil && len(rg.fields) == $i1
 //@   loop 4
 //@     invariant 0 <= $i && RGsOK(resultGroups, len(groupByFields))
@@ -369,8 +372,10 @@ package updog
 //@   ensures !idx.db.closed && !idx.db.wopen && idx.db.committed == old(idx.db.committed) && idx.db.ncommits == old(idx.db.ncommits)
 //@   ensures err == nil ==> idx.metrics != nil && CacheValid(idx.cache)
 //@   ensures err == nil ==> (idx.values == nil || GetterValid(idx.values)) || idx.values == old(idx.values)
+//@   ensures [C01,C03] err == nil ==> idx.values == nil || idx.values == old(idx.values) || GetterFrom(idx.values, idx.db)
+//@   ensures [C03] err == nil ==> idx.cache == old(idx.cache) || (forall k uint64 :: cachedBM(idx.cache, k) == nil)
 
-//@ func [C15,C16,C14] OpenIndexFromBoltDatabase(db, opts) (idx, err)
+//@ func [C15,C16,C14,C01,C03,C05,C06] OpenIndexFromBoltDatabase(db, opts) (idx, err)
 //@   requires DBOpen(db) && !db.wopen
 //@   requires forall j idx(opts) :: opts[j] != nil
 //@   modifies db.closed; heap ghost.fs
@@ -380,11 +385,14 @@ package updog
 //@   ensures [C16] read_only: db.committed == old(db.committed) && db.ncommits == old(db.ncommits) && !db.wopen
 //@   ensures [C15,C06] accepts_only_complete_indexes: err == nil ==> shas(db.committed) && sin(db.committed, kS()) && sin(db.committed, kI()) && blen(sval(db.committed, kI())) == 4
 //@   ensures [C01,C05] row_counter_is_read_back: err == nil ==> idx.nextRowID == be32dec(sval(db.committed, kI()))
+//@   ensures [C01,C03,C14] index_invariant_established: err == nil && FileConsistent(db.committed) ==> IdxInv(idx) && idx.mtx.held == 0 && GetterFrom(idx.values, db)
 //@   loop 1
 //@     invariant idx != nil && !(idx in old($alloc)) && idx.db == db && DBOpen(db) && !db.wopen && idx.metrics != nil && CacheValid(idx.cache) && SchemaOK(idx.schema)
 //@     invariant db.committed == old(db.committed) && db.ncommits == old(db.ncommits) && 0 <= $i
 //@     invariant shas(db.committed) && sin(db.committed, kS()) && sin(db.committed, kI()) && blen(sval(db.committed, kI())) == 4
 //@     invariant idx.nextRowID == be32dec(sval(db.committed, kI()))
+//@     invariant idx.values == nil || (GetterValid(idx.values) && GetterFrom(idx.values, db))
+//@     invariant (forall k uint64 :: cachedBM(idx.cache, k) == nil) && idx.mtx.held == 0
 
 //@ func [C15] (*Index).Close(idx) (err)
 //@   requires idx != nil && (idx.db != nil ==> !idx.db.wopen)
@@ -402,10 +410,11 @@ package updog
 //@ fieldinv global.keyNextRowID: len($v) == 1 && cap($v) == 1 && arr($v) != nil && heap("[]uint8")[arr($v)][off($v)] == 73
 //@ fieldinv global.keyPrefixValue: len($v) == 1 && cap($v) == 1 && arr($v) != nil && heap("[]uint8")[arr($v)][off($v)] == 86
 
-//@ func [C15,C16,C14] newPreloadedColGetter(db) (g, err)
+//@ func [C15,C16,C14,C01,C03] newPreloadedColGetter(db) (g, err)
 //@   requires DBOpen(db)
 //@   ensures [C15] err != nil ==> g == nil
 //@   ensures [C15] err == nil ==> GetterValid(g) && typeof(g) == ptrtag(preloadedColGetter) && fresh(iref(g))
+//@   ensures [C01,C03] preloaded_bitmaps_are_the_stored_ones: err == nil ==> GetterFrom(g, db)
 //@   ensures [C16] db.committed == old(db.committed) && db.ncommits == old(db.ncommits) && db.wopen == old(db.wopen) && !db.closed
 
 // the callback of db.View inside newPreloadedColGetter (executed in place by the verifier)
@@ -414,11 +423,14 @@ package updog
 //@   loop 1
 //@     invariant cg != nil && !(cg in old($alloc)) && cg.values != nil && !(cg.values in old($alloc))
 //@     invariant forall k2 uint64 :: (k2 in cg.values) ==> cg.values[k2] != nil
-//@     invariant c != nil
+//@     invariant c != nil && c.gbk == bucket && bucket.gtx == tx && CursorPair(c, k, v)
+//@     invariant forall k2 uint64 :: (k2 in cg.values) ==> cg.values[k2].view == stored(tx.work, k2) && !(cg.values[k2] in old($alloc)) && allocated(cg.values[k2])
+//@   assert after Uint64: key_bytes_decode_to_the_value_index: keyOf(k) == kV($r)
 
-//@ func [C15,C16] WithPreloadedData$1(idx) (err) inherits IndexOption.call
-//@ func [C15,C16] WithCache$1(idx) (err) inherits IndexOption.call
+//@ func [C15,C16,C01,C03] WithPreloadedData$1(idx) (err) inherits IndexOption.call
+//@ func [C15,C16,C03] WithCache$1(idx) (err) inherits IndexOption.call
 //@   assumes valid_cache_given: CacheValid(cache)
+//@   assumes cache_starts_empty_and_is_used_by_this_index_only: forall k uint64 :: cachedBM(cache, k) == nil
 //@ func [C15,C16] WithIndexMetrics$1(c) (err) inherits IndexOption.call
 //@   assumes metrics_given: metrics != nil
 
